@@ -988,6 +988,9 @@ pub enum Loc {
     UpRel(u8),
     /// "?q=<k>"
     Query(u8),
+    /// root-relative or relative reference that carries an absolute URL in its query (login redirects)
+    RootRelEmbedding(u8),
+    RelEmbedding(u8),
     Missing,
     Empty,
     /// not a URL at all
@@ -1030,6 +1033,8 @@ fn location_value(loc: &Loc) -> Option<String> {
         Loc::Rel(k) => format!("p{k}"),
         Loc::UpRel(k) => format!("../d{}/p{}", k % 3, k),
         Loc::Query(k) => format!("?q={k}"),
+        Loc::RootRelEmbedding(k) => format!("/d{}/p{}?return_to=https://other.test/home", k % 3, k),
+        Loc::RelEmbedding(k) => format!("p{k}?next=http://a.test/b"),
         Loc::Missing => return None,
         Loc::Empty => String::new(),
         Loc::Invalid => "http://[not a url".to_string(),
@@ -1181,7 +1186,7 @@ impl Check for Http16 {
             } else {
                 let status = if rng.chance(1, 8) { *rng.pick(&[300, 304]) } else { *rng.pick(REDIRECT_STATUSES) };
                 let k = rng.below(u64::from(nn)) as u8;
-                let loc = match rng.below(14) {
+                let loc = match rng.below(16) {
                     0..=3 => Loc::Abs(k),
                     4 | 5 => Loc::RootRel(k),
                     6..=8 => Loc::Rel(k),
@@ -1189,7 +1194,9 @@ impl Check for Http16 {
                     10 => Loc::Query(k),
                     11 => Loc::Missing,
                     12 => Loc::Empty,
-                    _ => Loc::Invalid,
+                    13 => Loc::Invalid,
+                    14 => Loc::RootRelEmbedding(k),
+                    _ => Loc::RelEmbedding(k),
                 };
                 Node::Redirect { status, loc }
             };
